@@ -8,7 +8,7 @@ PROP = dict(
           "{-3,-2.5..3}^2 x {-2,-1.5..2} x the same directions = 254,623,500 cases per axis rotation (quick: rotation seed%3, thorough: all three). Both are judged by an exact "
           "rational slab test (int64 cross multiplication, loops over axes, no division); because all quotients are exactly representable, truth values and ip / entry / exit are "
           "compared with ==. wide_*: samples of the lattice {-8..8}/S (S=1,2,4), directions {-7..7}^3\\{0} from 8 class-directed generators (idx%8: generic, line through a "
-          "corner, through an edge point, flat box, axis-parallel with the origin below/on/inside/on/above the slab, origin inside/on the surface, empty box, aimed/near miss); "
+          "corner, through an edge point, flat box, axis-parallel with the origin below/on/inside/on/above the slab, origin inside/on the surface, empty box, aimed/near miss; in half of the cases zero direction components are passed as -0.0); "
           "truth value exact (distinct quotients of such integers differ by > 1e-4 relative, equal ones round equally), points exact when the binding parameter has a power-of-two "
           "denominator, else inside the closed box, on its surface and within 16*eps*(|pos_j|+|t*dir_j|) of pos+t*dir. stress_*: real-valued boxes with moderate coordinates "
           "(integer, real, face at 0, size 1e-3; flat; empty), unit directions with components +0, -0, denormal, smallest normal, 1e-30, 2^-k - partly produced by Line3's own "
@@ -21,14 +21,14 @@ PROP = dict(
     assumptions=["IEEE-754 binary32/binary64 arithmetic with correctly rounded + - * / in round-to-nearest, no flush-to-zero (the default environment of the build)",
                  "long double (x87, 64-bit significand) and libquadmath __float128 arithmetic are correct (stress oracle)",
                  "directions are non-zero and finite, box and origin coordinates are finite; NaN / infinite inputs are outside the statement and not driven",
-                 "'on the ray to within rounding' is read as |p_j - (pos_j + t*dir_j)| <= 16*eps*(|pos_j| + |t*dir_j|) per component (worst observed ratio 1.5)",
+                 "'on the ray to within rounding' is read as |p_j - (pos_j + t*dir_j)| <= 16*eps*(|pos_j| + |t*dir_j|) per component (worst observed ratio 1.6), plus 4 denormal quanta for results of denormal magnitude",
                  "stress part: 'moderate' box coordinates are |c| <= 10; a hit/miss verdict is only given when the exact decision has relative margin > 1e-4 in the ray parameter"],
     technique=("exhaustive execution over two finite lattices with an exact rational (int64) slab-test oracle and == comparison of all outputs; class-directed sampling of a wider "
                "lattice with the same oracle; class-directed float stress inputs against a long double / __float128 slab test with a robustness margin; ASan/UBSan on a sampled sweep"),
     level_text=("Both lattices are enumerated completely on every quick run (4.3*10^8 cases for each of float and double, every one through all three entry points, truth values and "
                 "points compared exactly), the thorough tier repeats them under all three axis rotations (2.6*10^9 cases) - within these lattices nothing is left unexplored, "
                 "including every edge/corner graze, flat and empty box, axis-parallel ray and origin-on-surface configuration they contain. Inputs outside the lattices "
-                "(inexact quotients, extreme direction components) can only be sampled: 8*10^7 (quick) / 2*10^9 (thorough) wide-lattice cases and 2.4*10^7 / 8*10^8 stress cases."),
+                "(inexact quotients, extreme direction components) can only be sampled: 1.2*10^8 (quick) / 2*10^9 (thorough) wide-lattice cases and 4*10^7 / 8*10^8 stress cases."),
     level_note=("beyond the two enumerated lattices the input space is sampled; stress verdicts exclude near ties (relative margin <= 1e-4), underflowing quotients and NaN/inf inputs; "
                 "only gcc/x86-64 code generation is executed"),
     monitors=[M("c14_raybox", ["c14_raybox.cpp", "c14_wide.cpp", "c14_stress.cpp"], san_scale=0.05, san_scale_thorough=0.02)],
